@@ -144,6 +144,9 @@ type flakyStore struct {
 	outcomes    []int
 	calls       int
 	sawDeadline []bool // whether each Append's context carried a deadline
+	// cancelShaped: rejections look like an abandoned operation (the error also wraps
+	// context.Canceled) although the publish context is alive
+	cancelShaped bool
 }
 
 func (f *flakyStore) Append(ctx context.Context, e *Event) (Offset, error) {
@@ -161,6 +164,9 @@ func (f *flakyStore) Append(ctx context.Context, e *Event) (Offset, error) {
 	}
 	switch out {
 	case 1:
+		if f.cancelShaped {
+			return "", errors.Join(errInjected, context.Canceled)
+		}
 		return "", errInjected
 	case 2:
 		vmCtxExpire(ctx)
